@@ -213,6 +213,41 @@ def run(ctx):
                                             or s.startswith('psf_memset(ptr, 0') or s.startswith('psf_close(psf)') or s.startswith('printf(') or s.startswith('snprintf(data, datasize'))]
             ctx.ob('NO-EFFECT', key, not bad, f.loc(f.body), 'rejecting branch of `%s` %s' % (cond[:90], 'has no side effect besides error/log/zero-fill' if not bad else 'has side effects: %s' % bad), None)
 
+    ctx.rule('ERR-PUBLISH', 'sf_open / sf_open_fd / sf_open_virtual: where a failing open publishes the handle\'s error (`sf_errno = psf->error`) under a test of a helper\'s return value, every return of a '
+             'non-zero value in that helper is preceded by a store of a non-zero value into psf->error (or returns the assignment itself): otherwise sf_open returns NULL while sf_error (NULL) is 0', floor=1)
+    n_ep = 0
+    for name in ('sf_open', 'sf_open_fd', 'sf_open_virtual'):
+        g = prog.fn(name, 'sndfile.c')
+        for x in g.walk():
+            if x['k'] != 'IfStmt':
+                continue
+            pubs = [a_ for lv_, a_, r_ in assigned_lvalues(g, g.N[x['then']]) if lv_ == 'sf_errno' and r_ is not None and g.s(g.unwrap(r_)) == 'psf->error']
+            hc = [c_ for c_ in g.calls(root=g.N[x['cond']]) if c_.get('callee') in prog.fns]
+            if not pubs or not hc:
+                continue
+            h = prog.fns[hc[0]['callee']][0]
+            n_ep += 1
+            bad = []
+            for rt in h.cfg.returns():
+                if not rt.get('kids'):
+                    continue
+                e = h.unwrap(h.N[rt['kids'][0]])
+                if e.get('v') == 0:
+                    continue
+                es = h.s(e)
+                if es.replace(' ', '').startswith('(psf->error=') or es == 'psf->error':
+                    # returns the handle's error: it must have been stored non-zero on the way (or is what a callee left there)
+                    if es == 'psf->error' and not any(lv_ == 'psf->error' and h.cfg.dominates(a_, rt) for lv_, a_, r_ in assigned_lvalues(h)):
+                        pass
+                    continue
+                if e.get('v') is not None and e['v'] != 0:
+                    stores = [a_ for lv_, a_, r_ in assigned_lvalues(h) if lv_ == 'psf->error' and h.cfg.dominates(a_, rt)]
+                    if not stores:
+                        bad.append(rt)
+            ctx.ob('ERR-PUBLISH', '%s:%s' % (name, h.name), not bad, h.loc(bad[0]) if bad else g.loc(x), '%s publishes psf->error when %s fails; every failing return of %s has stored it' % (name, h.name, h.name) if not bad else
+                   '%s returns `%s` without storing it into psf->error, and %s publishes psf->error (still 0) for that failure: the open returns NULL with no error set' % (h.name, h.s(h.N[bad[0]['kids'][0]])[:40], name), None)
+    ctx.require(n_ep >= 1, 'no `sf_errno = psf->error` under a helper test found in the open functions')
+
     ctx.rule('OPEN-MODE', 'psf_open_file explored with an open mode that is none of SFM_READ / SFM_WRITE / SFM_RDWR (0, 1, 0x11, 0x21, 0x31, 0x40, 0x50, 0x130, -1; container RAW, which needs nothing from the '
              'file): no path reaches the success return and SFE_BAD_OPEN_MODE is recorded - sf_open_fd and sf_open_virtual store the caller\'s mode unchecked, this test is all there is', floor=9)
     from engine.peval import PEval as _PE9
